@@ -7,20 +7,21 @@ V=$(cd "$(dirname "$0")/.." && pwd)
 export GOFLAGS=-mod=mod GOPROXY=off GOSUMDB=off GOTOOLCHAIN=local
 D=$V/seeded/$NAME; mkdir -p $D
 cp $OUT/patch.diff $D/patch.diff; cp $OUT/notes.md $D/agent_notes.md 2>/dev/null
-for f in $OUT/*_test.go $OUT/*.go; do [ -f "$f" ] && cp "$f" $D/; done
+for f in $OUT/*_test.go $OUT/*/*_test.go; do [ -f "$f" ] && cp "$f" $D/; done
 W=/tmp/sv.$NAME; rm -rf $W; git -C /repo worktree prune; git -C /repo worktree add -q --detach $W HEAD || exit 3
 trap "git -C /repo worktree remove --force $W 2>/dev/null; rm -rf $W" EXIT
 LOG=$D/confirm.log; : > $LOG
 say() { echo "$@" | tee -a $LOG; }
 DEMOFILES=${DEMOFILES:-$(cd $D && ls *_test.go)}
+mkdir -p $W/$DEMODIR
 for f in $DEMOFILES; do cp $D/$f $W/$DEMODIR/; done
 ( cd $W && go vet ./$DEMODIR >/dev/null 2>&1 ); 
 say "== demonstration WITHOUT the change (must pass)"
-( cd $W && go test -count=1 -timeout 15m -run "$DEMORE" ./$DEMODIR 2>&1 | tail -3 ) | tee -a $LOG
+( cd $W && go test ${GOTESTFLAGS:-} -count=1 -timeout 15m -run "$DEMORE" ./$DEMODIR 2>&1 | tail -3 ) | tee -a $LOG
 ( cd $W && git apply $D/patch.diff ) || { say "PATCH DOES NOT APPLY"; exit 3; }
 ( cd $W && go build ./... ) || { say "DOES NOT COMPILE"; exit 3; }
 say "== demonstration WITH the change (must fail)"
-( cd $W && go test -count=1 -timeout 15m -run "$DEMORE" ./$DEMODIR 2>&1 | tail -4 ) | tee -a $LOG
+( cd $W && go test ${GOTESTFLAGS:-} -count=1 -timeout 15m -run "$DEMORE" ./$DEMODIR 2>&1 | tail -4 ) | tee -a $LOG
 say "== existing suite with the change (demonstration file removed)"
 for f in $DEMOFILES; do rm -f $W/$DEMODIR/$f; done
 ( cd $W && go test -count=1 -vet=off -timeout 25m ./... 2>&1 | grep -v "no test files" | tail -6 ) | tee -a $LOG
